@@ -2,6 +2,8 @@
 
 from __future__ import annotations
 
+import asyncio
+
 from hypothesis import strategies as st
 
 from aiomysensors.model.message import Message, MessageSchema
@@ -45,6 +47,7 @@ def strategy(tier: str):
             "msg": gen.wellformed_message(),
             "ending": st.sampled_from(ENDINGS),
             "warmup": st.one_of(st.just([]), st.lists(gen.wellformed_message().map(gen.line_of), max_size=3)),
+            "debug_log": st.sampled_from((False, False, True)),
         }
     )
 
@@ -56,6 +59,10 @@ def enumerate_cases(tier: str):
         for warm in ("1;1;1;0;2;1\n", "1;1;2;0;2;\n", "1;1;0;0;3;relay\n", "1;255;3;0;0;55\n", "1;255;0;0;17;2.0\n", "1;255;4;0;0;ff\n"):
             for msg in ([1, 5, 3, 0, 3, ""], [255, 0, 3, 1, 4, "7"], [1, 255, 3, 0, 3, ""], [9, 254, 1, 0, 2, "a;b"], [9, 255, 0, 0, 17, "2.2.0"], [3, 255, 4, 0, 1, "ff"], [3, 1, 2, 1, 0, ""]):
                 yield {"version": version, "msg": msg, "ending": "\n", "warmup": [warm, warm]}
+        for size in (51, 200, 65530, 65537, 70000, 200000):
+            for debug in (False, True):
+                yield {"version": version, "msg": [12, 3, 1, 1, 47, "p" * size], "ending": "\n", "warmup": [], "debug_log": debug}
+                yield {"version": version, "msg": [12, 255, 3, 0, 9, "é;" * (size // 2)], "ending": "\n", "warmup": [], "debug_log": debug}
 
 
 def _nontrivial(msg: list) -> bool:
@@ -83,6 +90,11 @@ def _classes(msg: list) -> tuple[str, ...]:
 
 
 def run_case(case: dict) -> Outcome:
+    with env.debug_logging(bool(case.get("debug_log"))):
+        return _run_case(case)
+
+
+def _run_case(case: dict) -> Outcome:
     version, msg, ending = case["version"], case["msg"], case["ending"]
     node, child, command, ack, mtype, payload = msg
     nontrivial = _nontrivial(msg)
@@ -119,6 +131,14 @@ def run_case(case: dict) -> Outcome:
             f"load(dump({msg})) = {env.msg_fields(loaded)} under {version}",
             classes=classes,
         )
+    # the decoded message belongs to the caller: changing it must not change what the next decode returns
+    loaded.payload, loaded.ack, loaded.message_type = "changed-by-caller", 1 - ack, mtype + 1
+    try:
+        second = schema.load(dumped)
+    except Exception as err:  # noqa: BLE001
+        return fail(f"second-load-raises:{type(err).__name__}", f"second load({dumped!r}) raised {err!r}", classes=classes)
+    if not env.exact_fields(second, msg):
+        return fail("second-decode-aliases-first", f"second load({dumped!r}) = {env.msg_fields(second)} after the caller modified the first result", classes=classes)
 
     # (B) decode(line) re-encodes to the line up to trailing whitespace
     line = expected_line[:-1] + ending
@@ -164,7 +184,7 @@ def run_case(case: dict) -> Outcome:
                 )
         return None
 
-    bad = env.run(through_gateway())
+    bad = asyncio.run(through_gateway())
     if bad is not None:
         return bad
     return Outcome(ok=True, nontrivial=nontrivial, classes=classes)
